@@ -20,6 +20,15 @@ CHECKS = {
     "C18": ("index of the first non-viable token from the reference (bad, why) rendered to byte positions under position-stressing layouts and suffixes, compared with error/error_pos",
             "exact line/column/length for the token-local error classes, never-before and suffix-independence for the others, on every rejected enumerated behaviour",
             "renderer's byte spans trusted", "4/C18"),
+    "C05": ("spec/MSReader.tla: impl-shaped reply reader with the network as environment (Deliver(k)); TLC explores every delivery schedule of every corpus reply (SegmentationFree, LiteralExact, NeverStuck, liveness Terminates); the wire forms are replayed into Client under every single cut, double cuts, recv caps and seeded splits, compared with the unsegmented run and two sentinel operations",
+            "for every corpus reply x operation x schedule the client's result, errcode/errmsg, leftover bytes and the two following operations equal those of the unsegmented delivery; the reference reader is model-checked segmentation-free on the same corpus",
+            "finite corpus generated from the RFC 5804 response grammar (harness/ms_corpus.py); scripted socket trusted", "4/C05"),
+    "C09": ("spec/MSClient.tla: admissible outcomes (reference + named deviations) per abstract reply, printed by TLC; every operation x every status reply replayed (fresh connection and after earlier NO/OK replies)",
+            "result / exception / errcode / errmsg of every operation equal the reference outcome of the abstract reply, or exactly the outcome of a listed open deviation",
+            "finite corpus; errcode compared on the code atom", "4/C09"),
+    "C17": ("spec/MSClient.tla RefList/GetOutcomes over look-alike name and body pools in every encoding; replayed unsegmented and under a seeded segmentation; DataNeverProtocol model-checked on the reader",
+            "listscripts / getscript values equal the abstract reply's names, active flag and body lines (line-ending style and trailing blank lines ignored)",
+            "finite pools of names/bodies biased to protocol look-alikes and exotic line separators", "4/C17"),
 }
 
 NOT_YET = {}
